@@ -740,9 +740,12 @@ pub mod harness {
     /// unsafe_table::contains is RangeTable::contains on a thread-local table. For a table built with the REAL insert (n <= 2 closed ranges,
     /// bounded) and at most one open block (begin without end): contains(token, v) <=> token is a File token inside some inserted range of
     /// its file carrying v, or an open block carries v. n and the open-block shape are concrete per case; all 9 cases are run.
-    fn range_table_case(n: u8, open: u8, use_get: bool) {
+    fn range_table_case(n: u8, open: u8, same_file: bool) {
         let mut t: RangeTable<Unsafe> = RangeTable::default();
-        let (p1, p2): (usize, usize) = (kani::any(), kani::any());
+        // same_file: both ranges in one (symbolic) file; otherwise files 3 and 5 (whether the second insert extends an entry or adds one
+        // has to be concrete: a symbolic number of map entries does not finish in CBMC)
+        let p: usize = kani::any();
+        let (p1, p2): (usize, usize) = if same_file { (p, p) } else { (3, 5) };
         let mk = |p: usize, l: u32, c: u32| Token { id: TokenId(0), text: StrId(0), line: l, column: c, length: 1, pos: 0, source: TokenSource::File { path: PathId(p), text: TextId(0) } };
         let pos: [u32; 8] = kani::any();
         let r1 = TokenRange { beg: mk(p1, pos[0], pos[1]), end: mk(p1, pos[2], pos[3]) };
@@ -774,30 +777,30 @@ pub mod harness {
             TokenSource::File { path, .. } => in_file(&r.beg.source, path) && pos_le(r.beg.line, r.beg.column, q.line, q.column) && pos_le(q.line, q.column, r.end.line, r.end.column),
             _ => false,
         };
+        // `contains` is `self.get(token).contains(value)`; `get` returns one entry per enclosing recorded block plus one per open block
         let count = (n >= 1 && inside(&r1)) as usize + (n >= 2 && inside(&r2)) as usize + (open >= 2) as usize;
-        if use_get {
-            // `contains` is `self.get(token).contains(value)`; `get` returns one entry per enclosing recorded block plus one per open block
-            assert!(t.get(&q).len() == count, "get differs from: one entry per enclosing recorded block (+ open blocks)");
-        } else {
-            assert!(t.contains(&q, &Unsafe::Cdc) == (count > 0), "contains differs from: inside some recorded block (or a block is still open)");
-        }
+        assert!(t.contains(&q, &Unsafe::Cdc) == (count > 0), "contains differs from: inside some recorded block (or a block is still open)");
     }
-    fn range_table_cases(n: u8, use_get: bool) {
-        range_table_case(n, 0, use_get);
-        range_table_case(n, 1, use_get);
-        range_table_case(n, 2, use_get);
+    fn range_table_cases(n: u8, same_file: bool) {
+        range_table_case(n, 0, same_file);
+        range_table_case(n, 1, same_file);
+        range_table_case(n, 2, same_file);
     }
     #[vp_bounded]
     pub fn range_table_contains_iff_inside_some_range_0() {
-        range_table_cases(0, false);
+        range_table_cases(0, true);
     }
     #[vp_bounded]
     pub fn range_table_contains_iff_inside_some_range_1() {
-        range_table_cases(1, false);
+        range_table_cases(1, true);
     }
     #[vp_bounded]
-    pub fn range_table_get_counts_enclosing_ranges_2() {
+    pub fn range_table_contains_iff_inside_some_range_2_same_file() {
         range_table_cases(2, true);
+    }
+    #[vp_bounded]
+    pub fn range_table_contains_iff_inside_some_range_2_two_files() {
+        range_table_cases(2, false);
     }
 
     // ---- canaries (must FAIL) ---------------------------------------------------------------------------------
